@@ -427,6 +427,19 @@ fn read_drop_cancelled(e: &'static Engine, workers: usize) {
 
 pub fn build(quick: bool) -> Vec<Scenario> {
     let mut v = vec![];
+    // the first-grab branch of the global lock (writers; see c05::first_grab)
+    for w in [1usize, 2] {
+        for (bt, ch) in [(true, false), (false, false), (true, true), (false, true)] {
+            if quick && w == 1 && !bt {
+                continue;
+            }
+            v.push(
+                Scenario::new("C12", "rwlock_first_grab", format!("rwlock.first_grab.{}{}.w{}", if bt { "CT" } else { "CC" }, if ch { ".head_cancelled" } else { "" }, w), Arc::new(move |e| super::c05::first_grab(e, w, true, bt, ch)))
+                    .vt_horizon(100_000_000)
+                    .bound(2),
+            );
+        }
+    }
     for w in [1usize, 2] {
         for parts in [&[('C', "W")][..], &[('C', "R")], &[('C', "W"), ('C', "W")], &[('C', "R"), ('C', "R")], &[('C', "W"), ('T', "R")]] {
             let parts: &'static [(char, &'static str)] = parts;
